@@ -12,7 +12,7 @@ trap cleanup EXIT
 git -C $wt apply "$p" || { echo "patch does not apply"; exit 2; }
 # scratch VERIF_ROOT: harness sources + known findings by symlink, evidence/replays local
 ln -s /verif/h $vr/h; ln -s /verif/known_findings.json $vr/known_findings.json
-VERIF_REPO=$wt VERIF_ROOT=$vr /verif/bin/vcheck run $id "$@" 2>&1 | tail -8 | cut -c1-700
+VERIF_REPO=$wt VERIF_ROOT=$vr /verif/bin/vcheck run $id "$@" 2>&1 | tail -14 | cut -c1-700
 rc=${PIPESTATUS[0]}
 if [ -n "$KEEP_REPLAYS" ] && [ -d $vr/replays ]; then mkdir -p "$KEEP_REPLAYS"; cp -r $vr/replays/* "$KEEP_REPLAYS"/; fi
 echo "exit=$rc"
